@@ -289,6 +289,100 @@ def rule_d(ctx: Context, R: Reporter, gc: ClassInfo):
             msg=f"{m.short}: `{unparse(first)}` is not a column sum of the weighted responsibilities", key="mstep-sum")
 
 
+def rule_g(ctx: Context, R: Reporter, gc: ClassInfo):
+    """C15.g  convexity and centring in the M-step (structural necessary conditions
+    for "mean inside the bounding box" and "PSD covariance"):
+      * the component means are `dot(W.T, X) / (sum(W, axis=0)[:, None] [+ eps])`
+        with one and the same W: a weighted average normalised by the sum of its
+        own weights (any other denominator is not a convex combination);
+      * every covariance term is built from centred data `X - means[k]` only: the
+        raw data array never enters a product and no `outer(mean, mean)` is
+        subtracted (the one-pass E[xx'] - mm' form cancels catastrophically and is
+        not PSD in floating point)."""
+    m = gc.methods["_m_step"]
+    flow = flow_of(m.node)
+    ps = [p for p in m.params if p != "self"]
+    X = ps[0]
+    n = 0
+    # means
+    rs = ExprResolver(m.node)
+    for nd in flow.cfg.stmt_nodes():
+        if nd.kind == "stmt" and isinstance(nd.stmt, ast.Assign) and isinstance(nd.stmt.targets[0], ast.Name) and nd.stmt.targets[0].id == "means":
+            n += 1
+            v = nd.stmt.value
+            ok = False
+            why = "not a quotient"
+            if isinstance(v, ast.BinOp) and isinstance(v.op, ast.Div):
+                num, den = v.left, v.right
+                W = None
+                if isinstance(num, ast.Call) and (ctx.res.external_name(m, num) or "") in ("numpy.dot", "numpy.matmul") and len(num.args) == 2 and norm_text(num.args[1]) == X:
+                    a0 = num.args[0]
+                    W = a0.value if isinstance(a0, ast.Attribute) and a0.attr == "T" else None
+                elif isinstance(num, ast.BinOp) and isinstance(num.op, ast.MatMult) and norm_text(num.right) == X and isinstance(num.left, ast.Attribute) and num.left.attr == "T":
+                    W = num.left.value
+                why = "numerator is not dot(W.T, X)"
+                if W is not None:
+                    wtxt = norm_text(W)
+                    dres = rs.resolve(den, nd)
+                    # strip `+ eps` and `[:, None]`
+                    core = dres
+                    if isinstance(core, ast.BinOp) and isinstance(core.op, ast.Add) and isinstance(core.right, ast.Constant):
+                        core = core.left
+                    if isinstance(core, ast.Subscript):
+                        core = core.value
+                    ok = isinstance(core, ast.Call) and (ctx.res.external_name(m, core) or "") == "numpy.sum" and core.args and norm_text(core.args[0]) in (wtxt, norm_text(rs.resolve(W, nd))) \
+                        and any(k.arg == "axis" and const_value(k.value) == 0 for k in core.keywords)
+                    why = f"denominator `{unparse(dres)[:50]}` is not sum({wtxt}, axis=0)"
+            R.check("C15.g", "component means are weighted averages normalised by the sum of their own weights", ok, m, nd.stmt,
+                    msg=f"{m.short}: `{unparse(nd.stmt)[:70]}`: {why}; with another denominator the mean is not a convex combination of the data (it leaves the bounding box when "
+                        f"responsibilities underflow or the weights are not exactly normalised)", key="means-convex")
+    R.floor("C15.g", "definitions of the component means in the M-step", n, 1)
+    # covariances
+    cf = None
+    for (c, tg) in ctx.cg.sites.get(m.qualname, []):
+        for t in tg:
+            if isinstance(t, FuncInfo) and "covarian" in t.name:
+                cf = t
+    if cf is None:
+        raise AnalysisError("C15.g: covariance routine called by the M-step not found")
+    cps = [p for p in cf.params if p != "self"]
+    cX, cM = cps[0], cps[1]
+    raw = []
+    for x in ast.walk(cf.node):
+        if isinstance(x, ast.Call) and (ctx.res.external_name(cf, x) or "") in ("numpy.dot", "numpy.matmul", "numpy.einsum", "numpy.outer", "numpy.multiply", "numpy.cov"):
+            for a in x.args:
+                for y in ast.walk(a):
+                    if isinstance(y, ast.Name) and y.id in (cX, cM) and not _inside_difference(a, y, cX, cM):
+                        raw.append((x, y.id))
+        if isinstance(x, ast.BinOp) and isinstance(x.op, (ast.Mult, ast.MatMult, ast.Pow)):
+            for side in (x.left, x.right):
+                for y in ast.walk(side):
+                    if isinstance(y, ast.Name) and y.id in (cX, cM) and not _inside_difference(side, y, cX, cM):
+                        raw.append((x, y.id))
+    seen = set()
+    for (x, nm) in raw:
+        k = norm_text(x)[:50]
+        if k in seen:
+            continue
+        seen.add(k)
+        R.check("C15.g", "covariance terms are products of centred data only", False, cf, x,
+                msg=f"{cf.short}: `{unparse(x)[:70]}` multiplies the un-centred `{nm}`: a covariance assembled as E[xx'] - mm' cancels catastrophically for data far from the origin "
+                    f"(negative eigenvalues, asymmetric result)", key=f"uncentred-product:{k}")
+    diffs = [x for x in ast.walk(cf.node) if isinstance(x, ast.BinOp) and isinstance(x.op, ast.Sub) and norm_text(x.left) == cX and cM in norm_text(x.right)]
+    R.floor("C15.g", "centred differences X - means[k] in the covariance routine", len(diffs), 1)
+    if not raw:
+        R.check("C15.g", "covariance terms are products of centred data only", True, cf, cf.node, key="uncentred-product")
+
+
+def _inside_difference(root: ast.AST, name_node: ast.AST, X: str, M: str) -> bool:
+    """Is `name_node` (an occurrence of X or means) an operand of a difference `X - means[...]` inside root?"""
+    for x in ast.walk(root):
+        if isinstance(x, ast.BinOp) and isinstance(x.op, ast.Sub):
+            if any(y is name_node for y in ast.walk(x)) and any(isinstance(y, ast.Name) and y.id == X for y in ast.walk(x.left)) and any(isinstance(y, ast.Name) and y.id == M for y in ast.walk(x.right)):
+                return True
+    return False
+
+
 def rule_e(ctx: Context, R: Reporter, gc: ClassInfo, hc: ClassInfo):
     # library estimators with a weights argument: only the frequency-weight (maximum-likelihood) forms are
     # equivalent to replicating points; np.cov(aweights=...) applies a reliability-weight bias correction
@@ -346,6 +440,7 @@ def run(ctx: Context, R: Reporter):
     R.guard(rule_d, ctx, R, gc)
     R.guard(rule_e, ctx, R, gc, hc)
     R.guard(rule_f, ctx, R, gc, hc)
+    R.guard(rule_g, ctx, R, gc)
 
 
 def rule_f(ctx: Context, R: Reporter, gc, hc):
